@@ -343,6 +343,48 @@ def register(reg):
     reg.lemma("CH_own_zero", dict(r=Arr(Int), c=Arr(Real), t=Int, B=Int, n=Int, m=Int), "CH(r, c, t, B, n, m, B) == 0",
               props=["C08", "C09"], induction="m", base="0")
 
+    # ---- local optimality in difference-array form -----------------------------------------------------------
+    # DCH / DAD: value of change[k] / add[k] after _compute_delta_costs(r, t, ..) started from zero arrays
+    A5 = dict(r=Arr(Int), c=Arr(Real), t=Int, n=Int, k=Int)
+    TIEX = "TIE(r, c, t, r[t], n, n, %d)"
+    reg.spec("def DCH(r, c, t, n, k):\n    return CH(r, c, t, r[t], n, n, k) + ite(r[t] != 0 and k == r[t] - 1, "
+             + TIEX % 0 + " - " + TIEX % 2 + ", 0.0) + ite(k == r[t] + 1, " + TIEX % 1 + " - " + TIEX % 2 + ", 0.0)",
+             A5, Real, opaque=True)
+    reg.spec("def DAD(r, c, t, n, k):\n    return AD(r, c, t, r[t], n, n, k) + ite(k == r[t], "
+             + TIEX % 0 + " - " + TIEX % 2 + ", 0.0) + ite(k == r[t] + 1, " + TIEX % 1 + " - " + TIEX % 2 + ", 0.0)",
+             A5, Real, opaque=True)
+    A5x = dict(r=Arr(Int), c=Arr(Real), t=Int, n=Int, x=Int)
+    # cumulated deltas: joining bucket x (SR_CH right of own bucket, SL_CH left), new bucket at position x (SR_AD, SL_AD)
+    reg.spec("def SR_CH(r, c, t, n, x):\n    return 0.0 if x <= r[t] else SR_CH(r, c, t, n, x - 1) + DCH(r, c, t, n, x)", A5x, Real)
+    reg.spec("def SL_CH(r, c, t, n, x):\n    return 0.0 if x >= r[t] else SL_CH(r, c, t, n, x + 1) + DCH(r, c, t, n, x)", A5x, Real)
+    reg.spec("def SR_AD(r, c, t, n, x):\n    return 0.0 if x <= r[t] else SR_AD(r, c, t, n, x - 1) + DAD(r, c, t, n, x)", A5x, Real)
+    reg.spec("def SL_AD(r, c, t, n, x):\n    return 0.0 if x >= r[t] + 1 else SL_AD(r, c, t, n, x + 1) + DAD(r, c, t, n, x)", A5x, Real)
+    LX = dict(a=Arr(Real), r=Arr(Int), c=Arr(Real), t=Int, n=Int, x=Int)
+    LXD = dict(LX, d=Int)
+    LO = ["C08"]
+    # if an array holds the difference values pointwise, its prefix sums are the cumulated deltas
+    reg.lemma("ext_r_ch", LX, "cumr(a, r[t], x) == SR_CH(r, c, t, n, x)", props=LO, induction="x", base="r[t]",
+              requires={"pt": "forall(lambda k: a[k] == DCH(r, c, t, n, k), r[t] + 1, x + 1)"})
+    reg.lemma("ext_r_ad", LX, "cumr(a, r[t], x) == SR_AD(r, c, t, n, x)", props=LO, induction="x", base="r[t]",
+              requires={"pt": "forall(lambda k: a[k] == DAD(r, c, t, n, k), r[t] + 1, x + 1)"})
+    # leftwards: induction on the distance d = r[t] - x, then the distance is eliminated by an explicit lemma call
+    reg.lemma("ext_l_ch_d", LXD, "cuml(a, r[t], x) == SL_CH(r, c, t, n, x)", props=LO, induction="d", base="0",
+              requires={"x": "x == r[t] - d", "pt": "forall(lambda k: a[k] == DCH(r, c, t, n, k), x, r[t])"})
+    reg.lemma("ext_l_ch", LX, "cuml(a, r[t], x) == SL_CH(r, c, t, n, x)", props=LO,
+              requires={"x": "x <= r[t]", "pt": "forall(lambda k: a[k] == DCH(r, c, t, n, k), x, r[t])"},
+              hints=["ext_l_ch_d(a, r, c, t, n, x, r[t] - x)"])
+    reg.lemma("ext_l_ad_d", LXD, "cuml(a, r[t] + 1, x) == SL_AD(r, c, t, n, x)", props=LO, induction="d", base="0",
+              requires={"x": "x == r[t] + 1 - d", "pt": "forall(lambda k: a[k] == DAD(r, c, t, n, k), x, r[t] + 1)"})
+    reg.lemma("ext_l_ad", LX, "cuml(a, r[t] + 1, x) == SL_AD(r, c, t, n, x)", props=LO,
+              requires={"x": "x <= r[t] + 1", "pt": "forall(lambda k: a[k] == DAD(r, c, t, n, k), x, r[t] + 1)"},
+              hints=["ext_l_ad_d(a, r, c, t, n, x, r[t] + 1 - x)"])
+    LOCS = {
+        "join_r": "forall(lambda x: SR_CH(r, cost_matrix_1d, t, n, x) >= -0.001, r[t] + 1, %s + 1)",
+        "join_l": "forall(lambda x: SL_CH(r, cost_matrix_1d, t, n, x) >= -0.001, 0, r[t])",
+        "add_r": "forall(lambda x: SR_AD(r, cost_matrix_1d, t, n, x) >= -0.001, r[t] + 1, %s + 2)",
+        "add_l": "forall(lambda x: SL_AD(r, cost_matrix_1d, t, n, x) >= -0.001, 0, r[t] + 1)",
+    }
+
     SWEEP_INV = {
         "mx_range": "forall(lambda j: 0 <= r[j] <= max_id_bucket, 0, n)",
         "mx_wit": "forall(lambda b: 0 <= wit[b] < n and r[wit[b]] == b, 0, max_id_bucket + 1)",
@@ -363,11 +405,28 @@ def register(reg):
             "range": "forall(lambda j: 0 <= r[j] <= n - 1, 0, n)",
             "dense": "forall(lambda b: implies(exists(lambda j: r[j] >= b, 0, n), exists(lambda j: r[j] == b, 0, n)), 0, n)",
             "nonpos": "result <= 0",
+            # no single-element move gains more than the 0.001 threshold (difference-array form; the link between the
+            # cumulated differences and the score difference is the delta lemma, see `assumed` and DESIGN)
+            "locopt_join_r": "forall(lambda t, x: implies(x > r[t] and exists(lambda j: r[j] == x, 0, n), "
+                             "SR_CH(r, cost_matrix_1d, t, n, x) >= -0.001), 0, n, 0, n + 1)",
+            "locopt_join_l": "forall(lambda t, x: implies(x < r[t], SL_CH(r, cost_matrix_1d, t, n, x) >= -0.001), 0, n, 0, n)",
+            "locopt_add_r": "forall(lambda t, x: implies(x > r[t] and exists(lambda j: r[j] + 1 >= x, 0, n), "
+                            "SR_AD(r, cost_matrix_1d, t, n, x) >= -0.001), 0, n, 0, n + 2)",
+            "locopt_add_l": "forall(lambda t, x: implies(x <= r[t], SL_AD(r, cost_matrix_1d, t, n, x) >= -0.001), 0, n, 0, n + 1)",
         },
         assumed={
             "delta": "result == SC(r, 0, cost_matrix_1d, n, n) - SC(old(r), 0, cost_matrix_1d, n, n)",
         },
-        loops={1: dict(inv=SWEEP_INV), 2: dict(inv=SWEEP_INV)},
+        loops={
+            1: dict(inv=dict(SWEEP_INV, **{
+                "loc_" + nm: "implies(terminated == 1, forall(lambda t: %s, 0, n))" % (src.replace("%s", "max_id_bucket"))
+                for nm, src in LOCS.items()})),
+            2: dict(inv=dict(SWEEP_INV, **{
+                "loc_" + nm: "implies(terminated == 1, forall(lambda t: %s, 0, elem))" % (src.replace("%s", "max_id_bucket"))
+                for nm, src in LOCS.items()})),
+        },
+        use_lemmas={"loc_join_r": ["ext_r_ch"], "loc_join_l": ["ext_l_ch"], "loc_add_r": ["ext_r_ad"],
+                    "loc_add_l": ["ext_l_ad"]},
         hints={2: ["dense_bound(r, n, max_id_bucket, wit)", "nl_bound(n, elem)",
                    "CH_own_zero(r, cost_matrix_1d, elem, r[elem], n, n)"]},
         exit_hints={1: ["dense_bound(r, n, max_id_bucket, wit)"]},
